@@ -299,6 +299,7 @@ func initDiagnosticList() {
 	RegisterNativeClass("Std::DiagnosticList", "value.DiagnosticListClass")
 
 	DiagnosticListIteratorClass = NewClass()
+	DiagnosticListIteratorClass.IncludeMixin(ResettableIteratorBaseMixin)
 	DiagnosticListClass.AddConstantString("Iterator", Ref(DiagnosticListIteratorClass))
 	RegisterNativeClass("Std::DiagnosticList::Iterator", "value.DiagnosticListIteratorClass")
 }
